@@ -94,13 +94,52 @@ def read_cfg(repo):
     return {"snap_pg": snap_pg, "snap_ch": snap_ch}
 
 
+PROBE = r"""
+import gc, os, sys, tempfile, warnings
+warnings.simplefilter("ignore")
+import numpy as np
+from geoh5py import Workspace
+from geoh5py.objects import Points
+d = tempfile.mkdtemp()
+ws = Workspace.create(os.path.join(d, "p.geoh5"))
+o = Points.create(ws, vertices=np.zeros((2, 3)))
+a = o.add_data({"a": {"values": np.zeros(2)}})
+g = o.add_data_to_group(a, "g")
+ws.remove_entity(a)
+del a, g
+gc.collect()
+try:
+    n = len(ws.property_groups)
+    print("PROBE ok" if n == 0 and not ws._property_groups else "PROBE odd")
+except KeyError:
+    print("PROBE keyerror")
+ws.close()
+"""
+
+
+def probe_pg_listing(repo):
+    """Does ws.property_groups survive a dead property group?  (behavioural probe of the checked tree)"""
+    import subprocess
+
+    env = dict(C.impl_env())
+    env["PYTHONPATH"] = f"{repo}:{C.VERIF / 'tools'}"
+    p = subprocess.run([C.PY, "-c", PROBE], capture_output=True, text=True, env=env, timeout=120)
+    if "PROBE ok" in p.stdout:
+        return True
+    if "PROBE keyerror" in p.stdout:
+        return False
+    raise RuntimeError("pg-listing probe: unrecognised behaviour: " + (p.stdout + p.stderr)[-400:])
+
+
 def regenerate(repo):
     cfg = read_cfg(repo)
+    cfg["pg_list_ok"] = probe_pg_listing(repo)
     text = (
         "(* generated by tools/props/c05.py from the loop headers of Workspace.remove_recursively and\n"
         "   ObjectBase.remove_data_from_groups of the checked tree; do not edit *)\n"
         "From GV Require Import Model.Removal.\n"
-        "Definition cur : cfg := {| snap_pg := %s; snap_ch := %s |}.\n" % (cbool(cfg["snap_pg"]), cbool(cfg["snap_ch"]))
+        "Definition cur : cfg := {| snap_pg := %s; snap_ch := %s; pg_list_ok := %s |}.\n"
+        % (cbool(cfg["snap_pg"]), cbool(cfg["snap_ch"]), cbool(cfg["pg_list_ok"]))
     )
     GEN.parent.mkdir(exist_ok=True)
     if not GEN.exists() or GEN.read_text() != text:
